@@ -368,7 +368,11 @@ def gen_spec(tape, cfg: dict[str, Any]) -> dict:
                 sc.append(("work",))
             if do_collect:
                 sc.append(("collect", list(accepts[n]), None))
-                if cfg.get("p_collect_then_fail") and tape.chance(cfg["p_collect_then_fail"], 100, "collect-then-fail?"):
+                if cfg.get("p_collect2") and tape.chance(cfg["p_collect2"], 100, "collect2?"):
+                    # the same body feeds a second collect buffer with the same event before looking at either result
+                    sc.append(("collect", list(accepts[n]), "b2"))
+                    sc[-2] = sc[-2] + (None, "defer")
+                elif cfg.get("p_collect_then_fail") and tape.chance(cfg["p_collect_then_fail"], 100, "collect-then-fail?"):
                     # the body raises AFTER it has called collect_events and found the set incomplete: its result carries the
                     # collected event and the failure together
                     sc[-1] = sc[-1] + (("fail", tape.choice(cfg["exc_pool"], "cf.exc"), tape.rng_int(1, 2, "cf.k")),)
@@ -842,8 +846,17 @@ class EngineWorld:
             self.trace.log("collect", step=name, uid=in_uid, inv=rec["inv"], buf=buf, run=rec["run"],
                            got=[uid_of(x) for x in got] if got is not None else None,
                            gtypes=[ev_desc(x) for x in got] if got is not None else None)
-            if got is None:
-                if len(act) > 3:
+            if got is None and len(act) > 4 and act[4] == "defer":
+                # incomplete, but the body first feeds its other buffer (the next op); it returns after that
+                rec["deferred_buffered"] = True
+                self.probe("two-collect-buffers-in-one-body")
+                continue_ = True
+            else:
+                continue_ = False
+            if continue_:
+                pass
+            elif got is None:
+                if len(act) > 3 and act[3]:
                     _, exc, k = act[3]
                     key = (name, _hashable(in_uid), "after-collect")
                     c = self.fail_counts.get(key, 0)
@@ -853,7 +866,11 @@ class EngineWorld:
                         self.probe("raised-after-buffering-collect")
                         raise EV.make_exc(exc, f"{name}/{in_uid}/f{c}")
                 return ("buffered", None), None
-            rec["collected"] = got
+            elif rec.pop("deferred_buffered", False):
+                # the second buffer is complete but the first was not: the body has nothing to work on yet
+                return ("buffered", None), None
+            else:
+                rec["collected"] = got
         elif op == "set":
             pass  # async-only (store access); handled in run_body via 'aset'
         elif op == "ret":
